@@ -10,6 +10,7 @@ import (
 	"bytes"
 	"fmt"
 	"os"
+	"regexp"
 	"strings"
 	"time"
 
@@ -223,6 +224,70 @@ func main() {
 				ne++
 			}
 			return ne >= 1, fmt.Sprintf("%d entries, %d errors, both channels closed", n, ne)
+		}},
+		{"C01-multiline-loc-noqual", func() (bool, string) {
+			s := genbank.Parse([]byte(gbRecord("120", "     gene            join(1..2,\n                     3..4)\n     CDS             1..4\n                     /note=\"n\"\n", "        1 acgtacgtac gtacgtacgt")))
+			return len(s.Features) == 2, fmt.Sprintf("%d features, want 2", len(s.Features))
+		}},
+		{"C01-continuation-slash", func() (bool, string) {
+			s := genbank.Parse([]byte(gbRecord("120", "     gene            1..4\n                     /note=\"a\n                     /b\"\n", "        1 acgtacgtac gtacgtacgt")))
+			return len(s.Features) == 1 && s.Features[0].Attributes["note"] == "a /b", fmt.Sprintf("attributes=%v want note=\"a /b\"", s.Features[0].Attributes)
+		}},
+		{"C01-firstword-dispatch", func() (bool, string) {
+			txt := "LOCUS       test                 120 bp    DNA     linear   SYN 01-JAN-2020\nREFERENCE   1  (bases 1 to 20)\n  AUTHORS   A\n  TITLE     T\n  JOURNAL   see the\n            TITLE page\nCOMMENT     see\n            JOURNAL of x\nFEATURES             Location/Qualifiers\nORIGIN\n        1 acgtacgtac gtacgtacgt\n//\n"
+			s := genbank.Parse([]byte(txt))
+			r := s.Meta.References[0]
+			return r.Title == "T" && r.Journal == "see the TITLE page", fmt.Sprintf("title=%q journal=%q", r.Title, r.Journal)
+		}},
+		{"C01-ref-toplevel-word", func() (bool, string) {
+			txt := "LOCUS       test                 120 bp    DNA     linear   SYN 01-JAN-2020\nREFERENCE   1  (bases 1 to 20)\n  AUTHORS   A\n  JOURNAL   open\n            SOURCE code\n  PUBMED    123\nFEATURES             Location/Qualifiers\nORIGIN\n        1 acgtacgtac gtacgtacgt\n//\n"
+			s := genbank.Parse([]byte(txt))
+			return s.Meta.References[0].PubMed == "123", fmt.Sprintf("pubmed=%q want 123", s.Meta.References[0].PubMed)
+		}},
+		{"C01-locus-fields", func() (bool, string) {
+			a := genbank.Parse([]byte("LOCUS       linear                 4 bp    DNA     circular BCT 01-JAN-2020\nORIGIN\n        1 acgt\n//\n")).Meta.Locus
+			b := genbank.Parse([]byte("LOCUS       test                   4 bp    genomic DNA     linear BCT 01-JAN-2020\nORIGIN\n        1 acgt\n//\n")).Meta.Locus
+			return a.Circular && !a.Linear && b.MoleculeType == "genomic DNA", fmt.Sprintf("name 'linear': circular=%v linear=%v; molecule type %q want \"genomic DNA\"", a.Circular, a.Linear, b.MoleculeType)
+		}},
+		{"C03-reference-wrapped", func() (bool, string) {
+			var s poly.Sequence
+			s.Sequence = "acgtacgtac"
+			rng := "(bases 1 to 10; 20 to 30; 40 to 50; 60 to 70; 80 to 90; 100 to 110; 120 to 130)"
+			s.Meta.References = []poly.Reference{{Index: "1", Authors: "A", Range: rng}}
+			back := genbank.Parse(genbank.Build(s))
+			return back.Meta.References[0].Range == rng, fmt.Sprintf("range read back as %q", back.Meta.References[0].Range)
+		}},
+		{"C03-odd-quote", func() (bool, string) {
+			var s poly.Sequence
+			s.Sequence = "acgtacgtac"
+			f := poly.Feature{Type: "gene", Attributes: map[string]string{"a": "x\"y", "b": "z"}}
+			f.SequenceLocation = poly.Location{Start: 0, End: 5}
+			s.AddFeature(&f)
+			back := genbank.Parse(genbank.Build(s))
+			return len(back.Features) == 1 && len(back.Features[0].Attributes) == 2 && back.Features[0].Attributes["b"] == "z", fmt.Sprintf("attributes read back: %v", back.Features[0].Attributes)
+		}},
+		{"C02-double-complement", func() (bool, string) {
+			s := genbank.Parse([]byte(gbRecord("120", "     gene            complement(complement(2..4))\n                     /note=\"x\"\n", "        1 gattacaggc gtacgtacgt")))
+			got := s.Features[0].GetSequence()
+			txt := genbank.BuildLocationString(s.Features[0].SequenceLocation)
+			return got == "att" && txt == "complement(complement(2..4))", fmt.Sprintf("sequence %q want \"att\"; written back as %q", got, txt)
+		}},
+		{"C10-linear-end-reverse-site", func() (bool, string) {
+			e := clone.Enzyme{Name: "x", RegexpFor: regexp.MustCompile("GGAC"), RegexpRev: regexp.MustCompile("GTCC"), Skip: 0, OverhangLen: 5, RecognitionSite: "GGAC"}
+			fr := clone.CutWithEnzyme(clone.Part{"AAGGACAAAAATTTTTGTCC", false}, true, e)
+			return len(fr) == 1, fmt.Sprintf("%d fragments, want 1 (AAAAA,\"\",TTTTT)", len(fr))
+		}},
+		{"C20-truncated-before-root", func() (bool, string) {
+			entries := make(chan uniprot.Entry, 100)
+			errs := make(chan error, 100)
+			go uniprot.Parse(strings.NewReader("<?xml version=\"1.0\"?>\n"), entries, errs)
+			for range entries {
+			}
+			ne := 0
+			for range errs {
+				ne++
+			}
+			return ne >= 1, fmt.Sprintf("%d errors for a stream that ends before its root element", ne)
 		}},
 	}
 	for _, p := range probes {
